@@ -322,6 +322,8 @@ Ltac split_type ty tac :=
 Ltac rewrite_false ty :=
   repeat match goal with H : String.eqb ty _ = false |- _ => rewrite H; clear H end.
 
+(* the branch bodies stay folded while the dispatch is analysed *)
+Local Opaque gen_bmad_convert_element__marker gen_bmad_convert_element__monitor gen_bmad_convert_element__instrument gen_bmad_convert_element__pipe gen_bmad_convert_element__drift gen_bmad_convert_element__hkicker gen_bmad_convert_element__vkicker gen_bmad_convert_element__sbend gen_bmad_convert_element__quadrupole gen_bmad_convert_element__solenoid gen_bmad_convert_element__lcavity gen_bmad_convert_element__rcollimator gen_bmad_convert_element__ecollimator gen_bmad_convert_element__wiggler gen_bmad_convert_element__patch gen_bmad_convert_element__otherwise gen_elegant_convert_element__sole gen_elegant_convert_element__hkick_hkic gen_elegant_convert_element__vkick_vkic gen_elegant_convert_element__mark gen_elegant_convert_element__kick gen_elegant_convert_element__drift_drif gen_elegant_convert_element__csrdrift_csrdrif gen_elegant_convert_element__lscdrift_lscdrif gen_elegant_convert_element__ecol gen_elegant_convert_element__rcol gen_elegant_convert_element__quad gen_elegant_convert_element__sext gen_elegant_convert_element__moni gen_elegant_convert_element__ematrix gen_elegant_convert_element__rfca gen_elegant_convert_element__rfcw gen_elegant_convert_element__rfdf gen_elegant_convert_element__sben gen_elegant_convert_element__rben gen_elegant_convert_element__csrcsben gen_elegant_convert_element__watch gen_elegant_convert_element__charge_wake gen_elegant_convert_element__otherwise.
 (* element dicts whose "element_type" is a string *)
 Lemma gen_bmad_dispatch : forall rec c name ps ty,
   get c name = Some (VElem ps) -> get ps "element_type" = Some (PStr ty) ->
@@ -403,3 +405,128 @@ Proof.
   unfold contains, has, getitem. rewrite Ht. cbn [option_map of_pval py_eq_str py_in_strs].
   apply gen_elegant_convert_element__otherwise_eq.
 Qed.
+
+(* ================================================================== the line front end *)
+(* the three continuation passes of convert_lattice_to_cheetah, in the order and with the flags of Lines.v's [merge_all_fixed] *)
+Lemma gen_bmad_merge_passes_eq : forall ls, gen_bmad_merge_passes merge_fixed ls = merge_all_fixed ls.
+Proof. reflexivity. Qed.
+Lemma gen_elegant_merge_passes_eq : forall ls, gen_elegant_merge_passes merge_fixed ls = merge_all_fixed ls.
+Proof. reflexivity. Qed.
+(* pinned texts (see Gen/ConvGenBase.v) *)
+Lemma gen_define_element_pattern_eq : gen_define_element_pattern = define_element_pattern_fixed.
+Proof. reflexivity. Qed.
+Lemma gen_merge_delimiter_continued_lines_ast_sha256_eq :
+  gen_merge_delimiter_continued_lines_ast_sha256 = merge_delimiter_continued_lines_ast_sha256_fixed.
+Proof. reflexivity. Qed.
+
+(* ================================================================== LatticeJSON: Ops/Json.v *)
+Section LatticeJSONEquiv.
+Variables (P J V Jv Cls : Type).
+Variable class_name : P -> string.
+Variable defining_features : P -> list string.
+Variable getattr_ : P -> string -> V.
+Variable feature2nontorch : V -> Jv.
+Variable mk_entry : string -> dict Jv -> J.
+Variable entry_class : J -> option string.
+Variable entry_params : J -> option (dict Jv).
+Variable cheetah_class : string -> option Cls.
+Variable nontorch2feature : Jv -> V.
+Variable construct : Cls -> string -> dict V -> option P.
+
+(* what latticejson.convert_element writes for a leaf: every defining feature but "name", through feature2nontorch *)
+Definition lj_params (p : P) : dict Jv :=
+  dict_of_items (map (fun f => (f, feature2nontorch (getattr_ p f)))
+                     (filter (fun f => negb (String.eqb f "name")) (defining_features p))).
+(* Json.v's [sv]: the entry [class name, params] *)
+Definition lj_sv (p : P) : J := mk_entry (class_name p) (lj_params p).
+(* Json.v's [ld]: parse_element on the entry found under the name *)
+Definition lj_ld (name : string) (j : J) : option P :=
+  c <- entry_class j ;; k <- cheetah_class c ;; ps <- entry_params j ;;
+  construct k name (map (fun '(key, value) => (key, nontorch2feature value)) ps).
+
+Notation Gen_convert_element := (gen_lj_convert_element P V Jv class_name defining_features getattr_ feature2nontorch).
+Notation Gen_convert_segment := (gen_lj_convert_segment P J V Jv class_name defining_features getattr_ feature2nontorch mk_entry).
+Notation Gen_parse_element := (gen_lj_parse_element P J V Jv Cls entry_class entry_params cheetah_class nontorch2feature construct).
+Notation Gen_parse_segment := (gen_lj_parse_segment P J V Jv Cls entry_class entry_params cheetah_class nontorch2feature construct).
+Notation Conv := (conv P J lj_sv).
+Notation Parse := (parse P J lj_ld).
+
+Lemma gen_lj_convert_element_eq : forall n p,
+  Gen_convert_element (Lf n p) = Some (n, class_name p, lj_params p).
+Proof. reflexivity. Qed.
+
+(* the inner loop of Json.v's [conv] *)
+Definition conv_go : list (tree P) -> dict J -> dict (list string) -> list string -> dict J * dict (list string) * list string :=
+  fix go (ts : list (tree P)) (E : dict J) (LL : dict (list string)) (cell : list string) :=
+    match ts with
+    | [] => (E, LL, cell)
+    | t' :: r =>
+      match t' with
+      | Lf m p => go r ((m, lj_sv p) :: E) LL (cell ++ [m])%list
+      | Sg m _ => let '(E', L') := Conv t' in go r (E' ++ E)%list (L' ++ LL)%list (cell ++ [m])%list
+      end
+    end.
+Lemma conv_seg : forall n ts, Conv (Sg n ts) = let '(E, LL, cell) := conv_go ts [] [] [] in (E, (n, cell) :: LL).
+Proof. reflexivity. Qed.
+
+Lemma gen_lj_convert_segment_eq : forall n ts,
+  Gen_convert_segment (fun t => Some (Conv t)) (Sg n ts) = Some (Conv (Sg n ts)).
+Proof.
+  intros n ts. rewrite conv_seg. unfold gen_lj_convert_segment. cbn [seg_elements].
+  assert (H : forall ts E LL cell,
+    foldM (fun '(elements_2, lattices_1, cell_1) element =>
+       if is_segment element then
+         r <- Some (Conv element) ;;
+         let '(segment_elements, segment_lattices) := r in
+         let elements_3 := dict_update elements_2 segment_elements in
+         let lattices_2 := dict_update lattices_1 segment_lattices in
+         let cell_2 := (cell_1 ++ [tname element])%list in Some (elements_3, lattices_2, cell_2)
+       else
+         r_1 <- Gen_convert_element element ;;
+         let '(element_name, element_class, element_params) := r_1 in
+         let elements_4 := dict_set elements_2 element_name (mk_entry element_class element_params) in
+         let cell_3 := (cell_1 ++ [tname element])%list in Some (elements_4, lattices_1, cell_3)) ts (E, LL, cell)
+    = Some (conv_go ts E LL cell)).
+  { induction ts0 as [|t' r IH]; intros E LL cell; [reflexivity|].
+    cbn [foldM conv_go]. destruct t' as [m p | m ts']; cbn [is_segment is_leaf negb].
+    - rewrite gen_lj_convert_element_eq. cbn. apply IH.
+    - destruct (Conv (Sg m ts')) as [E' L']. lazy beta iota zeta. cbn [tname]. unfold dict_update. apply IH. }
+  rewrite H. destruct (conv_go ts [] [] []) as [[E LL] cell]. reflexivity.
+Qed.
+
+Lemma gen_lj_parse_element_eq : forall name E LL,
+  Gen_parse_element name E LL
+  = match lookup E name with Some j => option_map (Lf name) (lj_ld name j) | None => None end.
+Proof.
+  intros. unfold gen_lj_parse_element, lj_ld. destruct (lookup E name) as [j|]; [|reflexivity].
+  destruct (entry_class j) as [c|]; [|reflexivity]. destruct (cheetah_class c) as [k|]; [|reflexivity].
+  destruct (entry_params j) as [ps|]; [|reflexivity].
+  destruct (construct k name _); reflexivity.
+Qed.
+
+Lemma foldM_ext : forall {S A} (f g : S -> A -> option S), (forall s x, f s x = g s x) -> forall xs s, foldM f xs s = foldM g xs s.
+Proof. intros S A f g H. induction xs as [|x r IH]; intros s; [reflexivity|]. cbn. rewrite H. destruct (g s x); [apply IH | reflexivity]. Qed.
+
+Lemma foldM_snoc : forall {A B} (g : A -> option B) xs acc,
+  foldM (fun acc x => match g x with Some y => Some (acc ++ [y])%list | None => None end) xs acc
+  = option_map (app acc) (mapM g xs).
+Proof.
+  intros A B g. induction xs as [|x r IH]; intros acc; cbn.
+  - now rewrite app_nil_r.
+  - destruct (g x) as [y|]; [|reflexivity]. rewrite IH. destruct (mapM g r) as [ys|]; cbn; [|reflexivity].
+    now rewrite <- app_assoc.
+Qed.
+
+Lemma gen_lj_parse_segment_eq : forall f E LL name,
+  Gen_parse_segment (Parse f E LL) name E LL = Parse (S f) E LL name.
+Proof.
+  intros f E LL name. unfold gen_lj_parse_segment. cbn [parse].
+  destruct (lookup LL name) as [cell|]; [|reflexivity].
+  rewrite (foldM_ext _ (fun acc x => match (match lookup LL x with
+                                            | Some _ => Parse f E LL x
+                                            | None => match lookup E x with Some j => option_map (Lf x) (lj_ld x j) | None => None end
+                                            end) with Some y => Some (acc ++ [y])%list | None => None end)).
+  - rewrite foldM_snoc. cbn [app]. destruct (mapM _ cell); reflexivity.
+  - intros acc x. unfold dict_has. rewrite gen_lj_parse_element_eq. destruct (lookup LL x); [|destruct (lookup E x) as [j|]; [destruct (lj_ld x j)|]]; reflexivity.
+Qed.
+End LatticeJSONEquiv.
